@@ -60,7 +60,11 @@ class Sh:
         ops = []
         if load == "loaded-by-trusted":
             ops += ["new T 1", "parse T PT %s" % hx("import %s;" % mod), "run T PT 100"]
-        ops += ["new A %d" % (1 if trusted else 0)]
+        # the trust flag is established in different ways: at creation, or by (repeated) calls of Context::trusted(bool)
+        if trusted: est = self.rnd.choice([["new A 1"], ["new A 0", "trust A 1"], ["new A 1", "trust A 1"], ["new A 0", "trust A 0", "trust A 1"]])
+        else: est = self.rnd.choice([["new A 0"], ["new A 0"], ["new A 0", "trust A 0"], ["new A 0", "trust A 0", "trust A 0"], ["new A 1", "trust A 0"], ["new A 0", "trust A 1", "trust A 0", "trust A 0"]])
+        ops += est
+        bump(self.res, "trust_established_by_%d_calls" % (len(est) - 1))
         granted = False
         name = mod
         def unban(n): return "unban %s" % hx(n) if n else "unban 2d"   # "-" stands for the empty string in the hex codec
